@@ -303,7 +303,20 @@ class HistoryRestore(Contract):
         h.append(inp["recorded"])
         labels = list(h.parameter_labels)
         inp["target"].set_from_history(h, 0)
-        return {"labels": labels, "after": {p.label: p.value for p in inp["target"].all()}, "recorded": {p.label: p.value for p in inp["recorded"].all()}}
+        out = {"labels": labels, "after": {p.label: p.value for p in inp["target"].all()}, "recorded": {p.label: p.value for p in inp["recorded"].all()}}
+        # a second record from a parameter set that holds the same labels in another order (the target, declared 1..n):
+        # refused, or stored under its own labels - never silently under the columns of the first order
+        second = {p.label: p.value for p in inp["target"].all()}
+        try:
+            h.append(inp["target"])
+            appended = True
+        except ValueError:
+            appended = False
+        out["second"] = (appended, second, inp["recorded"])
+        if appended:
+            inp["recorded"].set_from_history(h, 1)
+            out["second_restored"] = {p.label: p.value for p in inp["recorded"].all()}
+        return out
 
     def observe(self, out):
         return out if isinstance(out, Raised) else None
@@ -318,6 +331,12 @@ class HistoryRestore(Contract):
         for lab, v in out["after"].items():
             conds.append(L.eq(v, out["recorded"][lab]))
         yield "every_parameter_is_restored_from_the_column_of_its_own_label", L.and_(*conds)
+        appended, second, _ = out["second"]
+        same_order = list(case["history_order"]) == list(range(len(case["kinds"])))
+        if appended:
+            yield "a_record_in_another_label_order_is_refused_or_stored_under_its_own_labels", L.and_(*[L.eq(v, second[lab]) for lab, v in out["second_restored"].items()])
+        else:
+            yield "a_record_in_another_label_order_is_refused_or_stored_under_its_own_labels", not same_order
 
 
 class OptimizerBounds(Contract):
